@@ -14,10 +14,10 @@ through explicit conformances (computed here by a naive fixpoint, not by the por
 `prog`, direct oracle (independent of the evaluator): `false-condition-ignored` — the run completed
 normally although `main` calls a function that has a constant-false test condition in scope (own, or
 of any interface reachable from the composite; pre or post).
-Then each engine against its model: interpreter vs the wrapper model (`runInterp`), VM vs the desugared
-model (`runVM`).  When both engines agree with their models but not with each other the class is
-`vm-before-hoisted-over-pre` (known finding: the VM evaluates every inherited `before` statement before
-the first inherited pre-condition).
+Go-vs-Go: the engines must agree (`engines-differ`) unless the two models say they differ and each engine
+matches its model — class `vm-before-hoisted-over-pre` (known finding: the VM evaluates every inherited
+`before` statement before the first inherited pre-condition).  Then each engine against its model:
+interpreter vs the wrapper model (`runInterp`), VM vs the desugared model (`runVM`).
 -/
 open Verif.Proto Verif.Model.Lang3 Verif.Model.Lang3.Cond
 
@@ -129,10 +129,14 @@ def judgeProg (op : List String) (go : String) : Verdict :=
       .violation "false-condition-ignored" "a call with a constant-false condition in scope must fail" tags
     else if ov ≠ oo then .violation "peephole-differs" ("vm+peephole = vm = " ++ ov) tags
     else if (si.startsWith "model-" || sv.startsWith "model-") then .skip "model-fuel-or-internal"
+    -- Go-vs-Go: the engines must agree, except where the two models (wrappers / desugared) say they
+    -- differ, which is exactly the known finding (before statements hoisted over pre-conditions)
+    else if oi ≠ ov && si == sv then
+      .violation "engines-differ" ("vm observation = interpreter observation; model of both = " ++ si) tags
+    else if oi ≠ ov && oi == si && ov == sv then
+      .violation "vm-before-hoisted-over-pre" ("engines agree; interpreter = " ++ oi) tags
     else if oi ≠ si then .modelDiff ("interp-model:" ++ si) tags
     else if ov ≠ sv then .modelDiff ("vm-model:" ++ sv) tags
-    else if oi ≠ ov then
-      .violation "vm-before-hoisted-over-pre" ("engines agree; interpreter = " ++ oi) tags
     else .ok tags
   | none, _ => .skip "sx-unreadable"
   | _, _ => .skip "bad-go-result"
